@@ -78,11 +78,26 @@ pub fn run_c10(a: &Args) {
         let mut prev: Option<Vec<BTreeSet<BTreeSet<String>>>> = None;
         // the same graph rebuilt with fresh hash states must give the same partitions
         for rebuild in 0..3 {
-            let g = case.build();
+            // the second and third rebuilds reach the same nodes and edges through a derived copy
+            let g = match rebuild {
+                0 => case.build(),
+                1 => case.build().set_all_edge_weights(3.0),
+                _ => {
+                    let b = case.build();
+                    if b.specs.directed && idx % 2 == 0 {
+                        b.reverse().and_then(|r| r.reverse()).unwrap_or(b)
+                    } else {
+                        let mut all: Vec<String> = case.names.clone();
+                        all.reverse();
+                        b.get_subgraph(&all)
+                    }
+                }
+            };
+            let how = ["build", "build + set_all_edge_weights", "build + reverse twice / get_subgraph(all nodes)"][rebuild];
             let d = Dense::from_graph(&g);
             let kind = kind_class(&g);
             let fail = |func: &str, class: &str, detail: Value| {
-                ctx::violation(&format!("C10|{}|{}|{}", func, class, kind), &format!("{}: {}", func, class), json!({"detail": detail, "graph": case.json()}));
+                ctx::violation(&format!("C10|{}|{}|{}", func, class, kind), &format!("{}: {}", func, class), json!({"detail": detail, "graph": case.json(), "graph_obtained_by": how}));
             };
             let reach = oracle::closure(&d, false);
             let sym = oracle::closure(&d, true);
@@ -322,8 +337,10 @@ pub fn run_c11(a: &Args) {
         // ---- kind guards on multi-edge graphs
         if multi {
             for w in [false, true] {
+                // a multi-edge graph is refused with WrongMethod whatever else is wrong with the
+                // call (weighted = true on edges without weights included)
                 if w && !weighted_ok {
-                    continue;
+                    ctx::count("reach:weighted-request-on-unweighted-multigraph");
                 }
                 ctx::eval(2);
                 match guard("clustering", || cluster::clustering(&g, w, None)) {
@@ -773,6 +790,7 @@ pub fn run_c13(a: &Args) {
         }
         let mut rng = Rng::new(mix(a.seed ^ 0xC13, idx));
         let wcl = [WClass::Unweighted, WClass::Exact, WClass::ExactWide, WClass::Generic];
+        let mut stars = false;
         let case = match idx % 10 {
             0 | 1 => {
                 let specs = *rng.pick(&kinds);
@@ -798,6 +816,44 @@ pub fn run_c13(a: &Args) {
                 }
                 c
             }
+            8 => {
+                // one to three stars whose leaves hang on edges of very unequal weight, next to a
+                // component that needs a second level (path, cycle or clique): with a resolution
+                // above 1 a hub follows its heaviest leaf and leaves the light leaves behind in
+                // a community they are no longer adjacent to
+                stars = true;
+                let specs = Specs::kind(rng.chance(1, 4), false, false);
+                let mut names: Vec<String> = vec![];
+                let mut edges: Vec<(usize, usize, f64)> = vec![];
+                for _ in 0..rng.range(1, 3) {
+                    let hub = names.len();
+                    names.push(format!("h{}", hub));
+                    let leaves = rng.range(2, 6);
+                    let base = *rng.pick(&[2.0, 3.0, 1.5]);
+                    for l in 0..leaves {
+                        let leaf = names.len();
+                        names.push(format!("l{}", leaf));
+                        let w = if rng.coin() { ((l + 1) * (l + 1)) as f64 } else { f64::powi(base, l as i32) };
+                        if rng.coin() { edges.push((hub, leaf, w)) } else { edges.push((leaf, hub, w)) }
+                    }
+                }
+                let first = names.len();
+                let extra = rng.range(3, 7);
+                for i in 0..extra {
+                    names.push(format!("p{}", first + i));
+                }
+                match rng.below(3) {
+                    0 => (1..extra).for_each(|i| edges.push((first + i - 1, first + i, 1.0))),
+                    1 => (0..extra).for_each(|i| edges.push((first + i, first + (i + 1) % extra, 1.0))),
+                    _ => (0..extra).for_each(|i| (0..i).for_each(|j| edges.push((first + j, first + i, 1.0)))),
+                }
+                if rng.chance(1, 3) {
+                    // a light bridge between a star and the other component
+                    edges.push((rng.below(first), first + rng.below(extra), 1.0));
+                }
+                rng.shuffle(&mut edges);
+                GCase { specs, names, edges, family: "stars-with-unequal-leaves-plus-component", wclass: WClass::Exact }
+            }
             _ => random_case(&mut rng, 2, if a.thorough { 64 } else { 40 }, &kinds, &wcl),
         };
         if case.edges.is_empty() {
@@ -807,9 +863,12 @@ pub fn run_c13(a: &Args) {
         let d = Dense::from_graph(&g);
         let kind = kind_class(&g);
         let n = d.n;
-        let weighted = case.wclass.weighted() && rng.chance(3, 4);
-        let gamma = if rng.coin() { *rng.pick(&[0.3, 0.7, 1.0, 1.0, 1.5, 2.0]) } else { 0.05 + 1.95 * rng.f64() };
-        let threshold = *rng.pick(&[0.0, 1e-7, 1e-7, 1e-2, 0.5]);
+        let weighted = (case.wclass.weighted() && rng.chance(3, 4)) || stars;
+        let gamma = if stars {
+            ctx::count("reach:stars-with-unequal-leaves-at-resolution-above-1");
+            if rng.coin() { *rng.pick(&[1.3, 1.5, 1.7, 2.0]) } else { 1.1 + 0.9 * rng.f64() }
+        } else if rng.coin() { *rng.pick(&[0.3, 0.7, 1.0, 1.0, 1.5, 2.0]) } else { 0.05 + 1.95 * rng.f64() };
+        let threshold = if stars { *rng.pick(&[0.0, 0.0, 1e-7]) } else { *rng.pick(&[0.0, 1e-7, 1e-7, 1e-2, 0.5]) };
         let seed = match rng.below(12) {
             0 => u64::MAX - rng.below(3) as u64,
             1 => 1u64 << 63,
